@@ -1,7 +1,5 @@
 //! Two-way string matching on steroids.
 
-use std::cmp::max;
-
 use memchr_rs::memchr;
 
 const SIMD_THRESHOLD: usize = 16;
@@ -67,29 +65,27 @@ pub fn find(haystack: &str, needle: &str) -> Option<usize> {
         return None;
     }
 
-    let (crit, period) = crit_period(n);
+    let (crit, _) = crit_period(n);
     let anchor = n[crit];
 
+    // `offset` is where the anchor byte is looked for next. Every occurrence of the anchor is
+    // examined in increasing order, so the first match found is the first occurrence.
     let mut offset = 0;
 
-    while offset + nlen <= hlen {
+    while offset < hlen {
         let index = memchr(anchor, h, offset);
         if index >= hlen {
             return None;
         }
 
-        if index < crit {
-            offset = index + 1;
-            continue;
+        if index >= crit {
+            let start = index - crit;
+            if start + nlen <= hlen && &h[start..start + nlen] == n {
+                return Some(start);
+            }
         }
 
-        let start = index - crit;
-        if start + nlen <= hlen && &h[start..start + nlen] == n {
-            return Some(start);
-        }
-
-        let shift = max(1, period);
-        offset = start.saturating_add(shift);
+        offset = index + 1;
     }
 
     None
@@ -101,8 +97,9 @@ fn maximal_suffix(x: &[u8], rev: bool) -> (usize, usize) {
     let (mut i, mut j, mut k, mut p) = (0, 1, 1, 1);
 
     while j + k <= n {
-        let ap = x[i + k];
-        let a = x[j + k];
+        // `k` counts from 1, so the bytes compared are at offset `k - 1` from `i` and `j`
+        let ap = x[i + k - 1];
+        let a = x[j + k - 1];
         if (a < ap && !rev) || (a > ap && rev) {
             j += k;
             k = 1;
